@@ -75,6 +75,8 @@ def build(pms, fmt, D, order_seed=None):
         obj = new_object(pms, fmt)
         FM.fill_compose(obj.compose, c=D["compose"])
         ops = list(D["ops"])
+        if rng is not None:
+            ops = riffle(ops, kind, rng)
         for op in ops:
             FM.apply_real(obj, op)
         return obj
@@ -83,3 +85,27 @@ def build(pms, fmt, D, order_seed=None):
     if fmt == "discinfo":
         return FT.build_discinfo(pms[fmt], D)
     raise KeyError(fmt)
+
+
+def op_key(kind, op):
+    a = op["args"]
+    if kind == "rpms":
+        m = op["meta"]
+        return (a["variant"], a["arch"], FM.canon(m["srpm_parts"] or m["nevra_parts"]), FM.canon(m["nevra_parts"]))
+    if kind == "modules":
+        return (a["variant"], a["arch"], a["uid"])
+    return (a["variant"], a["arch"])
+
+
+def riffle(ops, kind, rng):
+    """Random interleaving that keeps the relative order of operations addressing the SAME key
+    (there the last writer wins / lists are extended in call order: order is content)."""
+    marks = [rng.random() for _ in ops]
+    groups = {}
+    for i, op in enumerate(ops):
+        groups.setdefault(op_key(kind, op), []).append(i)
+    for idxs in groups.values():
+        vals = sorted(marks[i] for i in idxs)
+        for i, v in zip(idxs, vals):
+            marks[i] = v
+    return [ops[i] for i in sorted(range(len(ops)), key=lambda i: marks[i])]
